@@ -86,6 +86,13 @@ def judgeNode (c : Cfg) (i : Nat) (log : List Rec) (mustBeActive : Bool) : List 
           if e.regTs != rq.now then bad := s!"reregister-not-fresh{sfx}" :: bad
         | none, _ => if rq.ev == "hb" then bad := "reregister-missing" :: bad
         | _, none => pure ()
+  -- (b, cont.) ... and a heartbeat the store ACCEPTS never leaves the own entry missing, whatever the state the lifecycler is in
+  -- (in particular LEAVING: a wipe during a slow shutdown must be healed, the next incarnation resumes from the entry)
+  for q in [0:n] do
+    let rq := arr[q]!
+    if rq.idx == i && rq.ev == "hb" && rq.fault == "n" && rq.ret == "ok" && rq.loc != "dead" && (entryOf rq.after c.id).isNone then
+      let st := (memOf c rq.loc).map (·.1.code)
+      bad := s!"reregister-missing:{st.getD "?"}" :: bad
   -- (b') after a window of rejected calls an accepted heartbeat shows the remembered state; nothing was forgotten
   for p in [0:n] do
     let r := arr[p]!
@@ -208,8 +215,11 @@ def handleRun (f : List String) : String × String × String :=
 /-- `C09.file <case> <old> <new> <limit> <child error class> <loads> <old|new|other> <tmp left>`: an existing tokens
 file rewritten by a child process under a file-size limit. Judge: whatever happened to the write, the file loads
 and holds the complete old or the complete new list. -/
-def handleFile (f : List String) : String × String × String :=
-  match f with
+def handleFile (f0 : List String) : String × String × String :=
+  -- optional 9th field: length of a stale temporary file left by an earlier interrupted write (the model's `createTmp`
+  -- truncates, so it has no influence)
+  let stale := (f0.drop 8).headD "0"
+  match f0.take 8 with
   | [_name, old, new, limit, cls, loads, which, tmp] =>
     match natList? old, natList? new, limit.toNat? with
     | some o, some nw, some lim =>
@@ -219,7 +229,7 @@ def handleFile (f : List String) : String × String × String :=
       let model := [if r.2 then "efbig" else "ok", "1", mWhich, if r.1.tmp == .absent then "0" else "1"]
       let diff := if model == [cls, loads, which, tmp] then "-" else "model=" ++ " ".intercalate model
       let judge := if loads == "1" && (which == "old" || which == "new") then "-" else "tokens-file-corrupt"
-      (diff, judge, s!"file=1 write={if fails then "fails" else "ok"} limit={lim}")
+      (diff, judge, s!"file=1 write={if fails then "fails" else "ok"} limit={lim} staletmp={if stale == "0" then "no" else "yes"}")
     | _, _, _ => ("bad-input", "-", "file=1")
   | _ => ("bad-fields", "-", "file=1")
 
